@@ -13,7 +13,7 @@ use rand::SeedableRng;
 use crate::compaction::{CompactionWorker, TaskKind};
 use crate::config::ITERATION_READ_BYTES_PERIOD;
 use crate::db::PortableDatabaseState;
-use crate::errors::RainDBError;
+use crate::errors::{RainDBError, RainDBResult};
 use crate::key::{InternalKey, RainDbKeyType};
 use crate::versioning::file_iterators::MergingIterator;
 use crate::{Operation, DB};
@@ -257,6 +257,9 @@ pub struct DatabaseIterator {
 
     /// A cached value. This value does not necessarily correlate to the `cached_key` field.
     cached_value: Option<Vec<u8>>,
+
+    /// The error that stopped the last `next` or `prev` call, if any.
+    iteration_error: Option<RainDBError>,
 }
 
 /// Crate-only methods
@@ -280,6 +283,7 @@ impl DatabaseIterator {
             bytes_until_read_sampling: 0,
             cached_user_key: None,
             cached_value: None,
+            iteration_error: None,
             compaction_worker,
         }
     }
@@ -287,6 +291,23 @@ impl DatabaseIterator {
 
 /// Private methods
 impl DatabaseIterator {
+    /**
+    Fail if one of the underlying iterators failed while it was positioned or moved.
+
+    The merging iterator keeps going with the children that are left, i.e. the iteration would
+    silently go on without the entries of the failed child.
+    */
+    fn check_inner_iterator(&mut self) -> RainDBResult<()> {
+        if let Some(error) = self.inner_iter.get_error() {
+            self.is_valid = false;
+            self.cached_user_key = None;
+            self.cached_value = None;
+            return Err(error);
+        }
+
+        Ok(())
+    }
+
     /**
     Get samples of read statistics for the current key.
 
@@ -476,13 +497,11 @@ impl RainDbIterator for DatabaseIterator {
 
         if self.inner_iter.is_valid() {
             self.find_next_client_entry(false);
-
-            return Ok(());
+        } else {
+            self.is_valid = false;
         }
 
-        self.is_valid = false;
-
-        Ok(())
+        self.check_inner_iterator()
     }
 
     fn seek_to_first(&mut self) -> Result<(), Self::Error> {
@@ -492,13 +511,11 @@ impl RainDbIterator for DatabaseIterator {
 
         if self.inner_iter.is_valid() {
             self.find_next_client_entry(false);
-
-            return Ok(());
+        } else {
+            self.is_valid = false;
         }
 
-        self.is_valid = false;
-
-        Ok(())
+        self.check_inner_iterator()
     }
 
     fn seek_to_last(&mut self) -> Result<(), Self::Error> {
@@ -507,45 +524,17 @@ impl RainDbIterator for DatabaseIterator {
         self.inner_iter.seek_to_last()?;
         self.find_prev_client_entry();
 
-        Ok(())
+        self.check_inner_iterator()
     }
 
     fn next(&mut self) -> Option<(&Self::Key, &Vec<u8>)> {
         assert!(self.is_valid);
 
-        if self.direction == DbIterationDirection::Backward {
-            self.direction = DbIterationDirection::Forward;
-
-            /*
-            The inner iterator is pointing just before the entries for the cached key, so we must
-            first seek into the run of records for the cached user key before we can use the
-            `find_next_client_entry` to find valid records.
-            */
-            if !self.inner_iter.is_valid() {
-                let _seek_result = self.inner_iter.seek_to_first();
-            } else {
-                self.inner_iter.next();
-            }
-
-            if !self.inner_iter.is_valid() {
-                self.is_valid = false;
-                self.cached_user_key = None;
-                return None;
-            }
-        } else {
-            // Save the current key of the inner iterator so that we skip it and it's older records
-            self.cached_user_key =
-                Some(self.inner_iter.current().unwrap().0.get_user_key().to_vec());
-
-            self.inner_iter.next();
-            if !self.inner_iter.is_valid() {
-                self.is_valid = false;
-                self.cached_user_key = None;
-                return None;
-            }
+        self.move_next();
+        if let Err(error) = self.check_inner_iterator() {
+            self.iteration_error = Some(error);
+            return None;
         }
-
-        self.find_next_client_entry(true);
 
         if !self.is_valid() {
             return None;
@@ -557,29 +546,11 @@ impl RainDbIterator for DatabaseIterator {
     fn prev(&mut self) -> Option<(&Self::Key, &Vec<u8>)> {
         assert!(self.is_valid);
 
-        if self.direction == DbIterationDirection::Forward {
-            // The inner iterator is point at the current entry. Scan backwards until the user key
-            // changes and use `DatabaseIterator::find_prev_client_entry` to find the most recent
-            // record for the user key
-            self.cached_user_key =
-                Some(self.inner_iter.current().unwrap().0.get_user_key().to_vec());
-            loop {
-                if let Some((current_key, _)) = self.inner_iter.prev() {
-                    if current_key.get_user_key() < self.cached_user_key.as_ref().unwrap() {
-                        break;
-                    }
-                } else {
-                    self.is_valid = false;
-                    self.cached_user_key = None;
-                    self.cached_value = None;
-                    return None;
-                }
-            }
-
-            self.direction = DbIterationDirection::Backward;
+        self.move_prev();
+        if let Err(error) = self.check_inner_iterator() {
+            self.iteration_error = Some(error);
+            return None;
         }
-
-        self.find_prev_client_entry();
 
         if !self.is_valid() {
             return None;
@@ -603,5 +574,74 @@ impl RainDbIterator for DatabaseIterator {
                 ));
             }
         }
+    }
+
+    fn take_error(&mut self) -> Option<Self::Error> {
+        self.iteration_error.take()
+    }
+}
+
+/// Cursor movement
+impl DatabaseIterator {
+    fn move_next(&mut self) {
+        if self.direction == DbIterationDirection::Backward {
+            self.direction = DbIterationDirection::Forward;
+
+            /*
+            The inner iterator is pointing just before the entries for the cached key, so we must
+            first seek into the run of records for the cached user key before we can use the
+            `find_next_client_entry` to find valid records.
+            */
+            if !self.inner_iter.is_valid() {
+                let _seek_result = self.inner_iter.seek_to_first();
+            } else {
+                self.inner_iter.next();
+            }
+
+            if !self.inner_iter.is_valid() {
+                self.is_valid = false;
+                self.cached_user_key = None;
+                return;
+            }
+        } else {
+            // Save the current key of the inner iterator so that we skip it and it's older records
+            self.cached_user_key =
+                Some(self.inner_iter.current().unwrap().0.get_user_key().to_vec());
+
+            self.inner_iter.next();
+            if !self.inner_iter.is_valid() {
+                self.is_valid = false;
+                self.cached_user_key = None;
+                return;
+            }
+        }
+
+        self.find_next_client_entry(true);
+    }
+
+    fn move_prev(&mut self) {
+        if self.direction == DbIterationDirection::Forward {
+            // The inner iterator is point at the current entry. Scan backwards until the user key
+            // changes and use `DatabaseIterator::find_prev_client_entry` to find the most recent
+            // record for the user key
+            self.cached_user_key =
+                Some(self.inner_iter.current().unwrap().0.get_user_key().to_vec());
+            loop {
+                if let Some((current_key, _)) = self.inner_iter.prev() {
+                    if current_key.get_user_key() < self.cached_user_key.as_ref().unwrap() {
+                        break;
+                    }
+                } else {
+                    self.is_valid = false;
+                    self.cached_user_key = None;
+                    self.cached_value = None;
+                    return;
+                }
+            }
+
+            self.direction = DbIterationDirection::Backward;
+        }
+
+        self.find_prev_client_entry();
     }
 }
